@@ -8,6 +8,7 @@ import io
 import json
 import logging
 import os
+import re
 import sys
 import traceback
 
@@ -279,15 +280,18 @@ def main():
             stdin_buffer = sys.stdin.buffer  # pylint: disable=no-member,useless-suppression
             stdin_text = io.TextIOWrapper(stdin_buffer, encoding='utf-8').read()
 
-            parts = stdin_text.split('namespace')
+            # A new spec starts at every namespace declaration, i.e. at the
+            # keyword in the first column of a line (the word may also occur
+            # inside identifiers, doc strings and comments).
+            parts = re.split(r'(?m)^(?=namespace[ \t])', stdin_text)
             if len(parts) == 1:
                 specs.append(('stdin.1', parts[0]))
             else:
                 specs.append(
-                    ('stdin.1', '{}namespace{}'.format(parts.pop(0), parts.pop(0))))
+                    ('stdin.1', '{}{}'.format(parts.pop(0), parts.pop(0))))
                 while parts:
                     specs.append(('stdin.%s' % (len(specs) + 1),
-                                  'namespace%s' % parts.pop(0)))
+                                  parts.pop(0)))
 
         if args.filter_by_route_attr:
             route_filter, route_filter_errors = parse_route_attr_filter(
